@@ -19,7 +19,8 @@ if [ ! -d "$wt" ]; then git -C /repo worktree add -q --detach "$wt" HEAD || exit
 # (a 3-way attempt that ends in conflicts leaves markers behind: reset before trying anything else)
 ( cd "$wt" && { git apply "$patch" 2>/dev/null || git apply -3 "$patch" 2>/dev/null || { git reset -q --hard; git apply -C1 "$patch" 2>/dev/null; } || git apply --ignore-whitespace "$patch"; } ) || { echo "patch does not apply" >&2; exit 2; }
 mkdir -p "$vs"
-rsync -a --exclude 'target*' --exclude '.git' --exclude 'replays/*' --exclude 'evidence/*' /verif/ "$vs"/
+# (ISO_SRC: a frozen copy of the framework, so that work on /verif can go on while a long series of trials runs)
+rsync -a --exclude 'target*' --exclude '.git' --exclude 'replays/*' --exclude 'evidence/*' "${ISO_SRC:-/verif}"/ "$vs"/
 sed -i "s#path = \"/repo\"#path = \"$wt\"#" "$vs/harness/Cargo.toml"
 sed -i "s#cd /repo && cargo build#cd $wt \&\& cargo build#" "$vs/check"
 mkdir -p "$vs/evidence"
